@@ -61,21 +61,25 @@ def coqc_in(d: Path, f: str, timeout=600):
     return core.sh(["coqc", *core.COQ_FLAGS, "-Q", str(d), "C11Gen", f], cwd=d, timeout=timeout)
 
 
-def simulate(body, nparams, script):
+def simulate(body, nparams, policy):
     """Python mirror of AliasIR.srun on AliasIR.start_heap (only used to FIND a
-    refuting script; Coq re-checks it).  Returns the index of a changed
-    pre-existing object or None."""
-    heap = [{"data": 0, "refs": [nparams + i]} for i in range(nparams)] + \
+    refuting script; Coq re-checks it).  `policy(kind, n_refs)` resolves each
+    choice; returns (script, index of a changed pre-existing object) or None."""
+    heap = [{"data": 0, "refs": [nparams + k]} for k in range(3 * nparams)] + \
            [{"data": 0, "refs": []} for _ in range(nparams)]
     n0 = len(heap)
     env = {}
-    sc = list(script)
+    script = []
 
     class Stuck(Exception):
         pass
 
-    def pick():
-        return sc.pop(0) if sc else 0
+    def pick(kind, n=0):
+        c = policy(kind, n)
+        script.append(c)
+        if len(script) > 3000:
+            raise Stuck()
+        return c
 
     def look(y):
         if y not in env:
@@ -97,21 +101,19 @@ def simulate(body, nparams, script):
         if k == "alias":
             return look(r[1])
         if k == "maybe":
-            c = pick()
+            c = pick("maybe")
             return look(r[2]) if c == 0 else alloc([])
         if k == "box":
             return alloc([env[y] for y in r[2] if y in env])
         if k == "copy":
             return alloc(heap[look(r[2])]["refs"])
         if k == "proj":
-            c = pick()
-            o = look(r[1])
-            if c == 0:
-                return o
-            refs = heap[o]["refs"]
-            if c - 1 >= len(refs):
+            o = env.get(r[1])
+            c = pick("proj", len(heap[o]["refs"]) if o is not None else 0)
+            if o is None:
                 raise Stuck()
-            return refs[c - 1]
+            refs = heap[o]["refs"]
+            return o if (c == 0 or c - 1 >= len(refs)) else refs[c - 1]
         raise AssertionError(k)
 
     def run(stmts):
@@ -121,13 +123,13 @@ def simulate(body, nparams, script):
             elif s[0] == "store":
                 heap[look(s[1])]["data"] += 1
             elif s[0] == "if":
-                run(s[1] if pick() == 0 else s[2])
+                run(s[1] if pick("if") == 0 else s[2])
             elif s[0] == "loop":
                 n = 0
-                while pick() != 0:
+                while pick("loop") != 0:
                     run(s[1])
                     n += 1
-                    if n > 20:
+                    if n > 6:
                         raise Stuck()
     try:
         run(body)
@@ -135,20 +137,51 @@ def simulate(body, nparams, script):
         return None
     for o in range(n0):
         if heap[o]["data"] != 0:
-            return o
+            while script and script[-1] == 0:       # an exhausted script reads as 0
+                script.pop()
+            return script, o
     return None
 
 
 def find_refuting_script(fn, rng):
     n = len(fn["params"])
-    for attempt in range(400):
-        if attempt == 0:
-            script = []
-        else:
-            script = [rng.choice([0, 0, 0, 1, 1, 2]) for _ in range(rng.randint(1, 60))]
-        o = simulate(fn["body"], n, script)
-        if o is not None:
-            return script, o
+    policies = []
+    for proj in ("self", "descend"):
+        for br in (0, 1):
+            for loop in (0, 1):
+                policies.append((proj, br, loop))
+
+    def mk(proj, br, loop, state={}):
+        iters = {"n": 0}
+
+        def policy(kind, nrefs):
+            if kind == "proj":
+                return 1 if (proj == "descend" and nrefs > 0) else 0
+            if kind == "if":
+                return br
+            if kind == "loop":
+                iters["n"] += 1
+                return 1 if (loop and iters["n"] % 2 == 1) else 0      # one iteration per loop
+            return 0
+        return policy
+    for pol in policies:
+        hit = simulate(fn["body"], n, mk(*pol))
+        if hit is not None:
+            return hit
+    for attempt in range(300):
+        p_desc, p_else, p_loop = rng.random(), rng.random() * 0.6, rng.random() * 0.5
+
+        def policy(kind, nrefs):
+            if kind == "proj":
+                return rng.randint(1, nrefs) if (nrefs and rng.random() < p_desc) else 0
+            if kind == "if":
+                return int(rng.random() < p_else)
+            if kind == "loop":
+                return int(rng.random() < p_loop)
+            return int(rng.random() < 0.2)
+        hit = simulate(fn["body"], n, policy)
+        if hit is not None:
+            return hit
     return None
 
 
@@ -180,7 +213,7 @@ def static_part(run: core.Run, tr):
             "From Coq Require Import String List.\n"
             f'Redirect "{d}/report" Eval vm_compute in (render_lines (rtriple rquoted (rpair rbool rbool) '
             "(rpair (rlist rnat) (rlist rnat))) report).\n")
-        rc, out = coqc_in(d, "report.v")
+        rc, out = coqc_in(d, "report.v", timeout=300)
         if rc != 0:
             run.obligation("checker report evaluates", False, out[-1500:])
             return verdict, fns
@@ -193,6 +226,8 @@ def static_part(run: core.Run, tr):
                                       "written": written, "result_params": resp})
         accepted = [f["name"] for f in fns if verdict[f["name"]].get("accepted")]
         rejected = [f for f in fns if not verdict[f["name"]].get("accepted")]
+        for f in rejected:
+            verdict[f["name"]]["offending"] = tr.offending_stores(f)
         obl = tr.obligations_text(accepted, module="C11_AliasProg").replace(
             "Require Import C11_AliasProg.", "From C11Gen Require Import C11_AliasProg.")
         # rejected targets: try to exhibit a refuting execution of the generated program
@@ -434,7 +469,7 @@ def f5_function_selector(case, changes) -> bool:
 
 def functional_part(run, tr, verdict, tier):
     import torch
-    n_per = 14 if tier == "quick" else 120
+    n_per = 14 if tier == "quick" else 300
     names = [t[0] for t in tr.TARGETS if t[3] is None and "." not in t[0]]
     tie_bad, oracle_bad, total = [], 0, 0
     failing = {n: [] for n in names}         # per target: failing inputs found
@@ -496,7 +531,7 @@ def centroid_model_part(run, code_fixed: bool, tier):
     import torch
     from sleap_nn.data.instance_centroids import generate_centroids
     rng = run.rng
-    n = 150 if tier == "quick" else 1500
+    n = 150 if tier == "quick" else 4000
     cases = []
     for _ in range(n):
         n_nodes = rng.randint(1, 4)
@@ -761,7 +796,7 @@ def report_dataset_failures(run, case, fails, failing_by_cls):
 
 def dataset_part(run, tier):
     rng = run.rng
-    n_sets = 30 if tier == "quick" else 250
+    n_sets = 30 if tier == "quick" else 800
     failing = {c: [] for c in DATASETS}
     cases = []
     for p in sorted(CORPUS.glob("*.json")) if CORPUS.exists() else []:
@@ -788,7 +823,7 @@ def dataset_part(run, tier):
     # real sleap-io objects on the asset video guard the duck-typed labels
     import sleap_io as sio
     asset = sio.load_slp(str(core.REPO / "tests/assets/minimal_instance.pkg.slp"))
-    n_real = 2 if tier == "quick" else 12
+    n_real = 2 if tier == "quick" else 24
     real_n = 0
     for k in range(n_real):
         ls = D.gen_label_set(rng)
@@ -839,6 +874,16 @@ def dataset_part(run, tier):
 
 # ============================================================================
 
+F5_SITE = ("instance_centroids.py", "generate_centroids")
+
+
+def attributable_to_f5(v) -> bool:
+    """every in-place write the certificate flags is the statement of finding F5
+    (inside generate_centroids, possibly inlined into the target)"""
+    offs = v.get("offending") or []
+    return bool(offs) and all(o.split(":")[0] == F5_SITE[0] and o.split(":")[2] == F5_SITE[1] for o in offs)
+
+
 def search_targets(name):
     """Which dynamic search explains a rejected target."""
     if "." in name:
@@ -878,13 +923,18 @@ def check(run: core.Run) -> int:
                 [s for c in DATASETS for s in failing_ds[c]]          # BaseDataset: any subclass
         why = v.get("why") or (f"no_param_write = false (may write parameter(s) {v.get('written')})"
                                if v.get("closed") else "certificate not closed")
-        if found:
-            # a failing input was found on the real code and reported (KNOWN-FINDING or VIOLATION)
-            run.obligation(f"{name}: analysis REJECTS ({why}); rejection explained by {len(found)} failing "
-                           f"input(s) found on the real code (selectors: {sorted({str(s) for s in found})})", True)
+        known_only = all(s is not None and run.selector_known(s) is not None for s in found)
+        if found and (not known_only or attributable_to_f5(v)):
+            # failing inputs were found on the real code and reported (KNOWN-FINDING or VIOLATION); a
+            # rejection is put down to a KNOWN finding only if every offending write is that finding's statement
+            run.obligation(f"{name}: analysis REJECTS ({why}; offending writes {v.get('offending')}); rejection "
+                           f"explained by {len(found)} failing input(s) found on the real code "
+                           f"(selectors: {sorted({str(s) for s in found})})", True)
         else:
             run.obligation(f"{name}: purity proved (analysis accepts the regenerated program)", False,
-                           f"{why}; the dynamic search found no input on which the property fails")
+                           f"{why}; offending writes {v.get('offending')}; the dynamic search found no input on "
+                           "which the property fails" + (" other than known findings that do not involve these "
+                                                         "writes" if found else ""))
     run.assumptions += [
         "the AliasIR translation over-approximates the Python semantics of the translated bodies (trusted: "
         "translator + operation table; validated by the observed-within-predicted tie on every run)",
@@ -895,7 +945,16 @@ def check(run: core.Run) -> int:
                     "as classified by the table, cross-checked by storage data_ptr observations"]
     run.coverage["rule"] = ("case = (helper, argument spec) or (dataset class, storage mode, label set, config, "
                             "history); non-trivial = has a missing keypoint; distinct by content hash")
-    return run.finish()
+    return run.finish(explanation=(
+        "proof: soundness of the alias-certificate checker over the heap semantics (C11/Props.v), instantiated per "
+        "run on the AliasIR programs regenerated from the source (accepted_<f>/pure_<f>, or refuted_<f> for a rejected "
+        "target); history independence from read purity; value-level theorems for generate_centroids / missing stays "
+        "missing / dataset length with the F5 refuted-partial-fixed triple.  tie: translator + operation table "
+        "validated by observed-within-predicted argument writes and storage sharing; model/code correspondence of "
+        "gen_centroid and the index lists; dataset histories (bit-for-bit re-reads, labels unchanged, missing stays "
+        "missing, lengths) are the executable oracle.  partial: the translation ast->AliasIR and the operation table "
+        "are trusted (tested, not proved); history independence is tied to the code by acceptance of __getitem__ "
+        "and the re-read test, not by a refinement proof."))
 
 
 def replay(run: core.Run, path: str) -> int:
